@@ -136,6 +136,16 @@ func (c *caseT) objective() scalarF {
 			}
 			return add(r, cst(0)), nil
 		}
+	case "quartic":
+		return func(x ConstVector) (MagicScalar, error) {
+			var r ConstScalar = cst(0)
+			for i := 0; i < c.N; i++ {
+				z := sub(x.ConstAt(i), cst(c.M[i].f()))
+				z2 := mul(z, z)
+				r = add(r, mul(z2, z2))
+			}
+			return add(r, cst(0)), nil
+		}
 	case "logistic":
 		return func(x ConstVector) (MagicScalar, error) {
 			var r ConstScalar = cst(0)
